@@ -300,6 +300,71 @@ def gen_pass_expr_case(rng):
     return {"kind": "pass", "acc": "snax_alu", "ops": ops}
 
 
+def gen_pass_const_case(rng):
+    """snax_alu operations whose first operand is indexed with CONSTANT offsets: a fixed row/column broadcast
+    `(c, d1)`, shifted windows `(d0 + c, d1)`, a single fixed element `(c)`; the emitted dart.schedule must carry them"""
+    n = rng.choice([1, 2, 2, 3])
+    ops = []
+    for i in range(rng.choice([1, 1, 2])):
+        bounds = [rng.choice([1, 2, 4, 4, 8, 16]) for _ in range(n)]
+        res = []
+        for d in range(n):
+            u = rng.random()
+            c = rng.choice([1, 2, 3, 5])
+            if u < 0.35:
+                res.append(["c", c])                              # this operand dim is fixed
+            elif u < 0.6:
+                res.append(["+", ["d", d], ["c", c]])             # shifted
+            elif u < 0.7:
+                res.append(["c", 0])
+            else:
+                res.append(["d", d])
+        if rng.random() < 0.2:
+            res = [["c", rng.choice([1, 4])]] + res               # extra leading fixed dim
+        ops.append({"bounds": bounds, "maps": [list(range(n))] * 3, "exprs": [res, None, None]})
+    return {"kind": "pass", "acc": "snax_alu", "ops": ops}
+
+
+def conv_op(B, OY, OX, F, FY, FX, C, stride=1):
+    d = [["d", i] for i in range(7)]
+
+    def win(o, f):
+        return ["+", o if stride == 1 else ["*", o, ["c", stride]], f]
+    return {"bounds": [B, OY, OX, F, FY, FX, C], "maps": [[0, 1, 2, 6], [3, 4, 5, 6], [0, 1, 2, 3]],
+            "exprs": [[d[0], win(d[1], d[4]), win(d[2], d[5]), d[6]], None, None]}
+
+
+def gen_pass_conv_case(rng):
+    """i8 convolutions on snax_gemmx (operands narrower than a bank: the memory-granularity constraint decides between
+    candidates), one or two operations per module"""
+    ops = []
+    for _ in range(rng.choice([1, 1, 2])):
+        while True:
+            shape = (rng.choice([1, 1, 2]), rng.choice([1, 2, 4, 8]), rng.choice([8, 8, 16]), rng.choice([8, 8, 16]),
+                     rng.choice([1, 3, 3]), rng.choice([1, 3, 3]), rng.choice([4, 8, 8, 16]))
+            if vol(shape) <= 40000:
+                break
+        ops.append(conv_op(*shape, stride=rng.choice([1, 1, 1, 2])))
+    return {"kind": "pass", "acc": "snax_gemmx", "ops": ops}
+
+
+CONV_PROBES = [{"kind": "pass", "acc": "snax_gemmx", "ops": [conv_op(1, 4, 8, 8, 3, 3, 8)]},
+               {"kind": "pass", "acc": "snax_gemmx", "ops": [conv_op(2, 8, 8, 8, 3, 3, 4), conv_op(1, 4, 8, 8, 3, 3, 8)]}]
+
+
+def op_exprs(op, k):
+    """result expressions of operand k given explicitly ("exprs" for any operand, "expr0" for the first), else None"""
+    if op.get("exprs") and op["exprs"][k] is not None:
+        return op["exprs"][k]
+    if k == 0 and "expr0" in op:
+        return op["expr0"]
+    return None
+
+
+def op_has_exprs(op):
+    return "expr0" in op or bool(op.get("exprs"))
+
+
 def op_points(op):
     bounds = op["bounds"]
     return list(itertools.product(*[range(b) for b in bounds]))
@@ -313,12 +378,12 @@ def image_of_passop(op):
     for x in pts:
         r = []
         for k, pm in enumerate(op["maps"]):
-            if k == 0 and "expr0" in op:
-                r += [ev(e, x) for e in op["expr0"]]
+            if op_exprs(op, k) is not None:
+                r += [ev(e, x) for e in op_exprs(op, k)]
             else:
                 r += [x[p] for p in pm]
         rows.append(r)
-    width = sum(len(op["expr0"]) if (k == 0 and "expr0" in op) else len(pm) for k, pm in enumerate(op["maps"]))
+    width = sum(len(op_exprs(op, k)) if op_exprs(op, k) is not None else len(pm) for k, pm in enumerate(op["maps"]))
     return np.array(rows, dtype=np.int64).reshape(len(pts), width)
 
 
@@ -338,8 +403,9 @@ def pass_op_sched(op):
     """the operation's own access patterns as a schedule JSON (from the case data only)"""
     n = len(op["bounds"])
     ops = [{"A": perm_rows(pm, n), "b": [0] * len(pm)} for pm in op["maps"]]
-    if "expr0" in op:   # placeholder, replaced by the model's from_affine_map of the expressions
-        ops[0] = {"A": [[0] * n for _ in op["expr0"]], "b": [0] * len(op["expr0"])}
+    for k in range(len(ops)):   # placeholders, replaced by the model's from_affine_map of the expressions
+        if op_exprs(op, k) is not None:
+            ops[k] = {"A": [[0] * n for _ in op_exprs(op, k)], "b": [0] * len(op_exprs(op, k))}
     return {"bounds": list(op["bounds"]), "ops": ops}
 
 
@@ -352,11 +418,15 @@ def render_pass_module(case):
         dims = ", ".join(f"d{k}" for k in range(n))
         mapl = [f"affine_map<({dims}) -> ({', '.join('d%d' % p for p in pm)})>" for pm in op["maps"]]
         mts = ["memref<" + "".join(f"{op['bounds'][p]}x" for p in pm) + ty + ">" for pm, ty in zip(op["maps"], tys)]
-        if "expr0" in op:
-            pts = op_points(op)
-            ext = [max(ev(e, x) for x in pts) + 1 for e in op["expr0"]]
-            mapl[0] = f"affine_map<({dims}) -> ({', '.join(expr_text(e) for e in op['expr0'])})>"
-            mts[0] = "memref<" + "".join(f"{max(v, 1)}x" for v in ext) + tys[0] + ">"
+        if op_has_exprs(op):
+            corners = list(itertools.product(*[(0, b - 1) for b in op["bounds"]]))   # generated maps are monotone (coefficients >= 0)
+            for k in range(3):
+                ex = op_exprs(op, k)
+                if ex is None:
+                    continue
+                ext = [max(ev(e, x) for x in corners) + 1 for e in ex]
+                mapl[k] = f"affine_map<({dims}) -> ({', '.join(expr_text(e) for e in ex)})>"
+                mts[k] = "memref<" + "".join(f"{max(v, 1)}x" for v in ext) + tys[k] + ">"
         if op.get("tensor"):   # operands that are not memrefs: AutoflowScheduler leaves the operation alone
             mts = [mt.replace("memref<", "tensor<") for mt in mts]
         maps = ", ".join(mapl)
@@ -686,6 +756,8 @@ class SchedProp(Prop):
                 "inner": guard(lambda: of_sched(s.inner_dims(case["k"]))),
                 "image": image_json(s),
             }
+            # what dart-scheduler writes into dart.schedule: every pattern as an AffineMap, read back with its constants
+            out["to_map"] = guard(lambda: [map_to_json(p.pattern.to_affine_map()) for p in s])
             if "custom" in case:
                 out["clear_with"] = guard(lambda: of_sched(s.clear_unused_dims(tuple(case["custom"]))))
                 # PatternCollection.__eq__ / AffineTransform.__eq__: a schedule equals its canonical form iff nothing was dropped
@@ -746,7 +818,8 @@ class SchedProp(Prop):
         if kind == "pass":
             sizes = [ELEM[ty] for ty in ACC_TYPES[case["acc"]]]
             return [{"fn": "c03.autoflow", "args": dict({"t": template_of(case), "s": pass_op_sched(op), "sizes": sizes,
-                                                          "fuel": FUEL}, **({"expr0": parsed_exprs(len(op["bounds"]), op["expr0"])} if "expr0" in op else {}))}
+                                                          "fuel": FUEL}, **({"exprs": [None if op_exprs(op, k) is None else parsed_exprs(len(op["bounds"]), op_exprs(op, k))
+                                                                       for k in range(3)]} if op_has_exprs(op) else {}))}
                     for op in case["ops"] if not op.get("tensor")]
         if kind == "match":
             return [{"fn": "c16.matches", "args": {"t": case["t"], "s": case["s"]}}]
@@ -764,6 +837,7 @@ class SchedProp(Prop):
         vals = [a["ok"] for a in answers]
         if kind == "xform":
             m = dict(zip(["rotate", "tile", "add_dim", "clear", "canon", "inner", "image", "clear_with"], vals))
+            m["to_map"] = [dict(o) for o in case["s"]["ops"]]   # emission is the identity on (A, b)
             if "custom" in case:
                 m["eq_canon"] = m["canon"] == case["s"]   # equality of schedules = equality of (bounds, A, b)
                 m["eq_self"] = True
@@ -798,7 +872,7 @@ class SchedProp(Prop):
         if isinstance(impl_out, dict) and "raised" in impl_out:
             return f"{k}:raised:{impl_out['raised']}"
         if k == "pass":
-            return f"pass:{case['acc']}:{len(case['ops'])} ops" + (":expr" if any("expr0" in o for o in case["ops"]) else "")
+            return f"pass:{case['acc']}:{len(case['ops'])} ops" + (":expr" if any(op_has_exprs(o) for o in case["ops"]) else "")
         if k == "from_map":
             return "from_map:accepted" + (":nonaffine-product" if any(has_dim_product(e) for e in case["rs"]) else "")
         if k == "scheduler":
@@ -894,6 +968,11 @@ class C03(SchedProp):
             yield gen_from_map_case(rng)
         for _ in range(80 if tier == "quick" else 1500):
             yield gen_pass_expr_case(rng)
+        for _ in range(60 if tier == "quick" else 1000):
+            yield gen_pass_const_case(rng)
+        yield from CONV_PROBES
+        for _ in range(10 if tier == "quick" else 150):
+            yield gen_pass_conv_case(rng)
         if tier == "thorough":
             yield from exhaustive_small_space()
 
@@ -906,6 +985,7 @@ class C03(SchedProp):
             yield gen_pass_case(rng)
             yield gen_from_map_case(rng)
             yield gen_pass_expr_case(rng)
+            yield gen_pass_const_case(rng)
 
     def oracle(self, case, impl_out):
         """The property on the real objects: same multiset of operand-index tuples (numpy enumeration)."""
@@ -937,6 +1017,21 @@ class C03(SchedProp):
             chk("add_dim()", lambda: s.add_dim())
             chk("clear_unused_dims()", lambda: s.clear_unused_dims())
             chk("canonicalize()", lambda: s.canonicalize())
+            if isinstance(impl_out.get("to_map"), list):
+                # the emitted maps, evaluated with xDSL's own AffineMap.eval at every point of the box
+                pts = list(itertools.product(*[range(b) for b in case["s"]["bounds"]]))
+                for j, p in enumerate(s):
+                    m = p.pattern.to_affine_map()
+                    A, b = case["s"]["ops"][j]["A"], case["s"]["ops"][j]["b"]
+                    for x in pts:
+                        want = [sum(a * v for a, v in zip(row, x)) + c for row, c in zip(A, b)]
+                        got = [int(v) for v in m.eval(list(x), [])]
+                        if got != want:
+                            out.append({"what": f"to_affine_map of operand {j} (A={A}, b={b}) emits {m}, which indexes {got} "
+                                                f"instead of {want} at iteration {list(x)}", "finding": None})
+                            break
+                    if out:
+                        break
             cb = case.get("custom")
             if cb is not None and len(cb) == n and all(b > 0 for b in cb):
                 # with custom bounds the box is replaced first: compare with the schedule on the custom box
@@ -1015,7 +1110,8 @@ class C03(SchedProp):
                         out.append({"what": f"operation #{i} was left unscheduled", "finding": None})
                     continue
                 if not same_multiset(image_of_json(sj), image_of_passop(op)):
-                    desc = f"operand 0 indexed by ({', '.join(expr_text(e) for e in op['expr0'])}), " if "expr0" in op else ""
+                    desc = "".join(f"operand {k} indexed by ({', '.join(expr_text(e) for e in op_exprs(op, k))}), "
+                                   for k in range(3) if op_exprs(op, k) is not None)
                     out.append({"what": f"dart-scheduler: operation #{i} of {len(scheds)} ({desc}bounds {op['bounds']}, maps {op['maps']}) got a "
                                         f"dart.schedule with bounds {sj['bounds']}, first map A={sj['ops'][0]['A']} that visits a different "
                                         f"multiset of operand-index tuples than the operation's own access patterns", "finding": None})
